@@ -11,20 +11,21 @@ import (
 
 // Opts steer the project generator.
 type Opts struct {
-	MaxUnits    int  // default 5
-	Layout      bool // random directory layouts, test files, ignored files, non-Java files (C01)
-	Bodies      bool // method bodies with invocations (C02, C05); otherwise short bodies
-	MultiByte   bool // string literals and comments may contain multi-byte characters
-	Interfaces  bool // some units are interfaces
-	NameReuse   bool // the same variable names with different types in different files/methods (C07)
-	ScopedReuse bool // parameter/local names reused across the methods of a unit with different types, and shadowing fields (C02)
-	ExtraImps   bool // imports that are unused / wildcard / static (C06)
-	Anon        bool // anonymous classes as arguments (new Runnable() { public void run() { ... } })
-	DupNames    bool // some classes share their simple name with a class of another package and are referenced through a wildcard import (metamorphic checks only)
-	Wide        bool // further statement and expression forms: do-while, try-with-resources, synchronized, throw, ternary, casts, super calls, block lambdas, several declarators
-	RichDecl    bool // annotated methods, parameters and fields, comments inside declarations, interface constants, several thrown types, nested generic types
-	MaxMethods  int  // default 5
-	NoCtors     bool
+	MaxUnits          int  // default 5
+	Layout            bool // random directory layouts, test files, ignored files, non-Java files (C01)
+	Bodies            bool // method bodies with invocations (C02, C05); otherwise short bodies
+	MultiByte         bool // string literals and comments may contain multi-byte characters
+	Interfaces        bool // some units are interfaces
+	NameReuse         bool // the same variable names with different types in different files/methods (C07)
+	ScopedReuse       bool // parameter/local names reused across the methods of a unit with different types, and shadowing fields (C02)
+	ExtraImps         bool // imports that are unused / wildcard / static (C06)
+	Anon              bool // anonymous classes as arguments (new Runnable() { public void run() { ... } })
+	DupNames          bool // some classes share their simple name with a class of another package and are referenced through a wildcard import (metamorphic checks only)
+	Wide              bool // further statement and expression forms: do-while, try-with-resources, synchronized, throw, ternary, casts, super calls, block lambdas, several declarators
+	RichDecl          bool // annotated methods, parameters and fields, comments inside declarations, interface constants, several thrown types, nested generic types
+	SharedMethodNames bool // different classes may declare methods of the same name (decoys for a rename)
+	MaxMethods        int  // default 5
+	NoCtors           bool
 }
 
 // Ann is an annotation as the model records it.
@@ -231,6 +232,21 @@ func GenProject(t *rapid.T, o Opts) Project {
 			if j > 0 && rapid.IntRange(0, 9).Draw(t, "overload") == 9 {
 				ms.name = s.methods[j-1].name // an overload
 				ms.nParams = s.methods[j-1].nParams + 1
+			}
+			if o.SharedMethodNames && i > 0 && rapid.IntRange(0, 4).Draw(t, "sharedMethodName") == 0 {
+				other := g.sigs[rapid.IntRange(0, i-1).Draw(t, "sharedFrom")]
+				if len(other.methods) > 0 {
+					cand := rapid.SampledFrom(other.methods).Draw(t, "sharedName").name
+					dup := false
+					for _, x := range s.methods {
+						if x.name == cand {
+							dup = true
+						}
+					}
+					if !dup {
+						ms.name = cand
+					}
+				}
 			}
 			ms.static = s.kind == "Class" && rapid.IntRange(0, 5).Draw(t, "static") == 5
 			ms.ret = g.returnType(s)
